@@ -120,14 +120,19 @@ def all_body(cfg, start, end, pb):
 
 for directed in (False, True):
     for strnodes in (False, True):
-        for ids, N in (([0, 1, 2], 3), ([0, 2, 3], 3), ([1, 3, 4, 6], 3), ([0, 1, 2], 4)):
+        for ids, N in (([0, 1], 3), ([0, 1, 2], 3), ([0, 2, 3], 3), ([1, 3, 4, 6], 3), ([0, 1, 2], 4)):
             for u in range(1 if N == 3 else 2):
                 for v in (None, 1, 0):
                     for (sn, en) in ((False, False), (True, True), (True, False)):
                       for part in ((0, 1, 2, 3) if directed else (None,)):
-                        quick = (ids == [0, 1, 2] and N == 3 and not strnodes and (sn, en) != (True, False) and v in (None, 1)
-                                 and not (directed and (sn or v == 1))) \
-                            or (ids == [0, 2, 3] and strnodes and v is None and not sn and not directed)
+                        if ids == [0, 1] and part not in (None, 0):
+                            continue
+                        if ids == [0, 1]:
+                            part = None
+                        quick = (not directed and ids == [0, 1, 2] and N == 3 and not strnodes and (sn, en) != (True, False) and v in (None, 1)) \
+                            or (ids == [0, 2, 3] and strnodes and v is None and not sn and not directed) \
+                            or (directed and ids == [0, 1] and not strnodes and (sn, en) == (False, False) and v in (None, 1)) \
+                            or (directed and ids == [0, 1, 2] and N == 3 and not strnodes and (sn, en) == (False, False) and v is None and part in (0, 1))
                         REG.add("trp_%s_%s_ids%s_N%d_u%d_v%s_%s%s%s" % ("d" if directed else "u", "str" if strnodes else "int",
                                                                         "".join(map(str, ids)), N, u, "N" if v is None else v,
                                                                         "s" if not sn else "S", "e" if not en else "E",
@@ -147,8 +152,23 @@ for directed in (False, True):
                                      "if directed), never reverses the previous hop, lets every intermediate node wait only while it "
                                      "keeps a neighbour, reaches v when given; keys are (first,last); no duplicates; [] iff u absent")
     for min_t in (0, 1):
-        REG.add("all_trp_%s_mint%d" % ("d" if directed else "u", min_t), T_paths, all_body,
-                cfg=dict(directed=directed, strnodes=False, ids=[0, 1, 2], N=3, min_t=min_t),
-                tier="quick" if min_t == 0 else "thorough", timeout=1200, tags=["some_path"], twins=1,
-                bounds="as trp_*, all_time_respecting_paths with min_t=%d, symbolic window, plus a disconnected pair present at every id" % min_t,
-                what="every path returned by all_time_respecting_paths is genuine and filed under (first node, last node)")
+        for ids in ([0, 1], [0, 1, 2]):
+            REG.add("all_trp_%s_ids%s_mint%d" % ("d" if directed else "u", "".join(map(str, ids)), min_t), T_paths, all_body,
+                    cfg=dict(directed=directed, strnodes=False, ids=ids, N=3, min_t=min_t),
+                    tier="quick" if (min_t == 0 and ids == [0, 1] and not directed) else "thorough", timeout=1200 if ids == [0, 1] else 3000,
+                    tags=["some_path"], twins=1,
+                    bounds="as trp_*, all_time_respecting_paths on ids %s with min_t=%d, symbolic window, plus a disconnected pair present "
+                           "at every id" % (ids, min_t),
+                    what="every path returned by all_time_respecting_paths is genuine and filed under (first node, last node)")
+
+
+# ---- eager variant on the REAL classes (shared with C13: soundness and completeness are checked together) ----------------
+def _register_eager():
+    from . import h_c13
+    for name, c in h_c13.REG.conds.items():
+        if name.startswith("eager_"):
+            REG.add(name, h_c13.T_eager, h_c13.eager_body, cfg=c.cfg, tier=c.tier, timeout=c.timeout, tags=c.tags, twins=1,
+                    bounds=c.bounds, what=c.what)
+
+
+from . import h_c13  # noqa: E402,F401  (registers the eager_* conditions above via h_c13's last line)
